@@ -39,6 +39,8 @@ def run(ctx):
     ctx.do(rule_no_hidden_state, "C08.history-independence")
     from .pitfalls import rule_loops_not_cut_short
     ctx.do(rule_loops_not_cut_short, "C08.loops-complete")
+    from .pitfalls import rule_definite_assignment
+    ctx.do(rule_definite_assignment, "C08.definite-assignment")
 
 
 def walk_functions(prog):
